@@ -176,9 +176,15 @@ func BuiltinStructField(env *lisp.LEnv, args *lisp.LVal) *lisp.LVal {
 	if !nameIsExported(field.Str) {
 		return env.Errorf("cannot access unexported field name: %v", field.Str)
 	}
-	x := v.FieldByName(field.Str)
-	if !x.IsValid() {
+	sf, ok := v.Type().FieldByName(field.Str)
+	if !ok {
 		return env.Errorf("struct has no field: %v", field.Str)
+	}
+	// FieldByName panics when the field is promoted from an embedded pointer
+	// that is nil; FieldByIndexErr reports it.
+	x, err := v.FieldByIndexErr(sf.Index)
+	if err != nil {
+		return env.Errorf("cannot access struct field %v: %v", field.Str, err)
 	}
 	if !x.CanInterface() {
 		return env.Errorf("cannot return struct field: %v", field.Str)
